@@ -138,6 +138,12 @@ def gen_c01(rng):
             elif k < 0.7:
                 name, params = one("c%do%d" % (ci, oi))
                 ops.append(["call", name.split(".") if "." in name else [name], params])
+                if name in methods and rng.random() < 0.12:
+                    # the name is registered again with another callable, and called again
+                    spec2 = {"kind": "const", "ret": gen_value(rng)}
+                    methods[name + "@2"] = spec2
+                    ops.append(["rebind", name, spec2])
+                    ops.append(["call2", [name], [gen_value(rng)]])
             else:
                 ents = []
                 for e in range(rng.randint(1, 3)):
@@ -186,6 +192,9 @@ def analyse_c01(program, s, run, verdict):
         op = o["op"]
         if op[0] == "call":
             check_one(o["ci"], o["oi"], op[1], op[2], o["out"], "call")
+        elif op[0] == "call2":
+            # the call that follows a new registration of the same name: the new callable must run
+            check_one(o["ci"], o["oi"], [op[1][0] + "@2"], op[2], o["out"], "call after re-registration")
         elif op[0] == "hcall":
             if o["out"][0] != "hcall":
                 v.append(Violation("C01", "return-value", "handle-raised:%s" % o["out"][1], "calls through a kept handle raised %s" % (o["out"][1:],)))
@@ -223,7 +232,7 @@ def analyse_c01(program, s, run, verdict):
     for ent in h.wire:
         by_req.setdefault(ent["req"], []).append(ent)
     for ci, hist in sorted(run.histories.items()):
-        nops = sum((len(op[2]) if op[0] == "hcall" else 1) for op in program["clients"][ci]["ops"] if op[0] in ("call", "batch", "notify", "hcall"))
+        nops = sum((len(op[2]) if op[0] == "hcall" else 1) for op in program["clients"][ci]["ops"] if op[0] in ("call", "call2", "batch", "notify", "hcall"))
         if len(hist.requests) != nops or len(hist.responses) != nops:
             v.append(Violation("C01", "history", "length", "History of client %d has %d requests / %d responses for %d exchanges" % (
                 ci, len(hist.requests), len(hist.responses), nops)))
@@ -260,7 +269,7 @@ class C01Scenario(object):
             p["client_version_%s" % c.get("version")] = 1
             for op in c["ops"]:
                 p["style_" + op[0]] = 1
-                if op[0] == "hcall":
+                if op[0] in ("hcall", "rebind", "call2"):
                     continue
                 ents = [op] if op[0] == "call" else op[1]
                 for e in ents:
@@ -630,8 +639,9 @@ def gen_c13_full(rng):
     elif cd < 0.3:
         sv["custom_dispatch"] = "instance"
     methods = {"echo": {"kind": "echo"}, "fail": {"kind": "fail"}, "two": {"kind": "two"}, "fault": {"kind": "fault"},
-               "slow": {"kind": "slow", "d": rng.choice([0.25, 0.5, 1.0])}, "sub": {"kind": "sub"}, "bad": {"kind": "baddump"}}
-    names = ["echo", "echo", "fail", "nope", "two", "slow", "slow", "fault", "sub", "bad"]
+               "slow": {"kind": "slow", "d": rng.choice([0.25, 0.5, 1.0])}, "sub": {"kind": "sub"}, "bad": {"kind": "baddump"},
+               "err": {"kind": "sharedfault"}}
+    names = ["echo", "echo", "fail", "nope", "two", "slow", "slow", "fault", "sub", "bad", "err"]
     sv["handlers"] = rng.random() < 0.4
     clients = []
     for ci in range(rng.randint(1, 4)):
@@ -657,7 +667,8 @@ def gen_c13_full(rng):
                     '[{"method": "%s", "params": ["%se0"], "id": 1}, {"jsonrpc": "2.0", "method": "echo", "params": ["%se1"], "id": 2}]' % (m, tok, tok),
                     '{"method": 5, "id": 3}', "nonsense", "[]", '{"jsonrpc": "2.0", "method": "%s", "params": 7, "id": 2}' % m,
                 ])])
-        clients.append({"version": rng.choice([None, 2.0, 1.0, 1.0]), "history": False, "ops": ops})
+        clients.append({"version": rng.choice([None, 2.0, 1.0, 1.0]), "history": False, "ops": ops,
+                        "content_type": rng.choice(["application/json-rpc", "application/json-rpc", "application/json", "application/jsonrequest"])})
     return {"server": sv, "net": {"seg": rng.choice(["whole", "random"]), "delay": 0}, "methods": methods,
             "clients": clients, "lifecycle": "serve", "config_mutations": rng.getrandbits(16)}
 
@@ -826,6 +837,8 @@ class C13Scenario(C04Scenario):
                 forms.add("1.0")
         if len(forms) == 2:
             p["mixed_1.0_and_2.0_requests"] = 1
+        if any(c.get("content_type", "application/json-rpc") != "application/json-rpc" for c in program["clients"]):
+            p["client_with_other_content_type"] = 1
         stats = {"steps": s.step, "switches": s.nswitch, "simtime": s.now, "verdict": verdict.kind if verdict else None,
                  "faults": dict(s.faults), "probes": p,
                  "states": set([(sv["kind"], sv["version"], str(sv.get("custom_dispatch")), min(mx, 3))]),
